@@ -576,6 +576,7 @@ class Dict(dict, base.Symbolic, pg_typing.CustomTyping):
     if isinstance(old_value, base.TopologyAware) and old_value is not new_value:
       old_value.sym_setparent(None)
       old_value.sym_setpath(utils.KeyPath())
+    self._sym_reset_content_cache()
 
     # NOTE(daiyip): If current dict is the field dict of a symbolic object,
     # Use parent object as update target.
@@ -785,6 +786,7 @@ class Dict(dict, base.Symbolic, pg_typing.CustomTyping):
     if base.treats_as_sealed(self):
       raise base.WritePermissionError('Cannot pop item from a sealed Dict.')
     key, value = super().popitem()
+    self._sym_reset_content_cache()
 
     # Detach old value from object tree.
     if isinstance(value, base.TopologyAware):
@@ -800,6 +802,7 @@ class Dict(dict, base.Symbolic, pg_typing.CustomTyping):
     self._value_spec = None
     old_items = list(self.sym_items())
     super().clear()
+    self._sym_reset_content_cache()
 
     if value_spec:
       try:
